@@ -20,6 +20,8 @@ def run(ctx):
     engine_scaled.run_scaled(ctx, 'fixed', 5 if quick else 6, [0, 1, 3] if quick else [0, 1, 2, 3],
                              800 if quick else 5000)
     engine_scaled.run_scaled(ctx, 'reloc', 6 if quick else 7, [0, 1, 2, 4], 800 if quick else 5000)
+    if not quick:
+        engine_scaled.apalache_stage(ctx)
     # the pinned-code deviations must be refuted by TLC at design level
     devs = [(['D1_NoSettleLoop'], ['ChunkIndependent']),
             (['D7_MisalignedAppend', 'F2_BackwardPointers'], ['Faithful', 'ChunkIndependent'])]
